@@ -36,6 +36,8 @@ func init() {
 		zz + "MapOrder":     extMapOrder,
 		zz + "PoolMode":     extPoolMode,
 		zz + "Freeze":       extFreeze,
+		zz + "Par":          extPar,
+		zz + "Stress":       func(e *Exec, _ *frame, _ token.Pos, _ *ssa.Function, a []Value) Value { return e.ts.Const(64, 1) },
 		zz + "Fail":         extFail,
 		zz + "HangIsViolation": func(e *Exec, _ *frame, _ token.Pos, _ *ssa.Function, _ []Value) Value {
 			e.ghost["hangviolation"] = e.ts.True
@@ -71,12 +73,12 @@ func init() {
 
 		"(*sync.Pool).Get":        extPoolGet,
 		"(*sync.Pool).Put":        extPoolPut,
-		"(*sync.Mutex).Lock":      extNop,
-		"(*sync.Mutex).Unlock":    extNop,
-		"(*sync.RWMutex).Lock":    extNop,
-		"(*sync.RWMutex).Unlock":  extNop,
-		"(*sync.RWMutex).RLock":   extNop,
-		"(*sync.RWMutex).RUnlock": extNop,
+		"(*sync.Mutex).Lock":      extMutexLock,
+		"(*sync.Mutex).Unlock":    extMutexUnlock,
+		"(*sync.RWMutex).Lock":    extMutexLock,
+		"(*sync.RWMutex).Unlock":  extMutexUnlock,
+		"(*sync.RWMutex).RLock":   extRLock,
+		"(*sync.RWMutex).RUnlock": extRUnlock,
 		"(*sync.Once).Do":         extOnceDo,
 
 		"sync/atomic.AddInt64":   extAtomicAdd,
@@ -537,6 +539,7 @@ func extPoolGet(e *Exec, fr *frame, pos token.Pos, fn *ssa.Function, args []Valu
 	if !ok {
 		panic(unsupported("sync.Pool through multi-target pointer"))
 	}
+	e.parYield("Pool.Get", nil)
 	bag := e.poolBags[p]
 	if bag == nil {
 		bag = &poolBag{}
@@ -558,6 +561,7 @@ func extPoolGet(e *Exec, fr *frame, pos token.Pos, fn *ssa.Function, args []Valu
 			it := bag.items[k]
 			bag.items = append(bag.items[:k:k], bag.items[k+1:]...)
 			e.markPooled(it, false)
+			e.parPoolGot(it)
 			return it
 		}
 	}
@@ -574,6 +578,7 @@ func extPoolPut(e *Exec, fr *frame, pos token.Pos, fn *ssa.Function, args []Valu
 	if !ok {
 		panic(unsupported("sync.Pool through multi-target pointer"))
 	}
+	e.parYield("Pool.Put", nil)
 	bag := e.poolBags[p]
 	if bag == nil {
 		bag = &poolBag{}
@@ -583,6 +588,7 @@ func extPoolPut(e *Exec, fr *frame, pos token.Pos, fn *ssa.Function, args []Valu
 	if x.t == nil {
 		return nil
 	}
+	e.parPoolPut(x)
 	for _, it := range bag.items {
 		if e.equal(x.t, it, x).IsTrue() {
 			e.softViolation("pool: object put twice (double release)", e.posStr(pos))
@@ -631,6 +637,21 @@ func extOnceDo(e *Exec, fr *frame, pos token.Pos, fn *ssa.Function, args []Value
 	if e.onceDone == nil {
 		e.onceDone = map[*Value]bool{}
 	}
+	if e.parActive() {
+		ps := e.par
+		e.parYield("Once.Do", func() bool { return ps.onceRun[p] == 0 })
+		ps.acquire(ps.cur, ps.syncClk[onceKey{p}])
+		if e.onceDone[p] {
+			return nil
+		}
+		me := ps.cur
+		ps.onceRun[p] = me.id + 1
+		e.call(fr, pos, args[1], nil)
+		ps.onceRun[p] = 0
+		e.onceDone[p] = true
+		ps.releaseTo(me, onceKey{p})
+		return nil
+	}
 	if e.onceDone[p] {
 		return nil
 	}
@@ -640,20 +661,24 @@ func extOnceDo(e *Exec, fr *frame, pos token.Pos, fn *ssa.Function, args []Value
 }
 
 func extAtomicAdd(e *Exec, fr *frame, pos token.Pos, fn *ssa.Function, args []Value) Value {
-	p := args[0].(PtrV)
-	old := e.load(fr, nil, p).(*Term)
-	nv := e.ts.Bin(OpAdd, old, args[1].(*Term))
-	e.store(fr, nil, fn.Signature.Params().At(1).Type(), p, nv)
-	return nv
+	return e.parAtomic(args[0], func() Value {
+		p := args[0].(PtrV)
+		old := e.load(fr, nil, p).(*Term)
+		nv := e.ts.Bin(OpAdd, old, args[1].(*Term))
+		e.store(fr, nil, fn.Signature.Params().At(1).Type(), p, nv)
+		return nv
+	})
 }
 
 func extAtomicLoad(e *Exec, fr *frame, pos token.Pos, fn *ssa.Function, args []Value) Value {
-	return e.load(fr, nil, args[0].(PtrV))
+	return e.parAtomic(args[0], func() Value { return e.load(fr, nil, args[0].(PtrV)) })
 }
 
 func extAtomicStore(e *Exec, fr *frame, pos token.Pos, fn *ssa.Function, args []Value) Value {
-	e.store(fr, nil, fn.Signature.Params().At(1).Type(), args[0].(PtrV), args[1])
-	return nil
+	return e.parAtomic(args[0], func() Value {
+		e.store(fr, nil, fn.Signature.Params().At(1).Type(), args[0].(PtrV), args[1])
+		return nil
+	})
 }
 
 // ---- strings / bytes ----
